@@ -4,8 +4,10 @@ import RlboxModel.IntConv
 import RlboxModel.Layout
 import RlboxModel.Ptr
 import RlboxModel.Range
+import RlboxModel.Tokens
 import RlboxModel.Lemmas.Arith
 import RlboxModel.Props.C05
 import RlboxModel.Props.C06
 import RlboxModel.Props.C10
+import RlboxModel.Props.C15
 import RlboxModel.Props.C17
